@@ -2,7 +2,7 @@
  *
  * Build: vlib.build_driver("h_fault", ["h_fault.c"], variant, extra=["-no-pie"],
  *          wraps=["coap_ticks","coap_socket_send","coap_socket_recv",
- *                 "coap_malloc_type","coap_realloc_type","coap_free_type"])
+ *                 "coap_malloc_type","coap_realloc_type","coap_free_type","coap_io_process_lkd"])
  *
  * Case lines (one result line each):
  *   fa <scenario> <k1> <k2> [S]     run the scenario in a forked child, failing allocation
@@ -187,6 +187,118 @@ static void h_loop(coap_resource_t *r, coap_session_t *s, const coap_pdu_t *req,
   W.n_get++;
   coap_pdu_set_code(resp, COAP_RESPONSE_CODE_HOP_LIMIT_REACHED);
   coap_add_data(resp, 8, (const uint8_t *)"10.0.0.9");
+}
+
+/* separate response: the first call registers an async and leaves the response empty (libcoap
+ * sends an empty ACK), the triggered second call answers */
+static int n_async_reg = 0;
+static void h_sep(coap_resource_t *r, coap_session_t *s, const coap_pdu_t *req,
+                  const coap_string_t *q, coap_pdu_t *resp) {
+  (void)r; (void)q;
+  W.n_get++;
+  coap_bin_const_t tok = coap_pdu_get_token(req);
+  coap_async_t *a = coap_find_async(s, tok);
+  if (!a) {
+    a = coap_register_async(s, req, 1000);
+    if (a) {
+      n_async_reg++;
+      return;                       /* no code: empty ACK, response later */
+    }
+    coap_pdu_set_code(resp, COAP_RESPONSE_CODE_SERVICE_UNAVAILABLE);
+    return;
+  }
+  coap_pdu_set_code(resp, COAP_RESPONSE_CODE_CONTENT);
+  coap_add_data(resp, 4, (const uint8_t *)"late");
+  /* the async entry is removed by libcoap when this handler returns */
+}
+
+/* unknown-resource handler: a PUT creates the resource */
+static int n_dyn = 0;
+static void h_dyn_get(coap_resource_t *r, coap_session_t *s, const coap_pdu_t *req,
+                      const coap_string_t *q, coap_pdu_t *resp) {
+  (void)r; (void)s; (void)req; (void)q;
+  W.n_get++;
+  coap_pdu_set_code(resp, COAP_RESPONSE_CODE_CONTENT);
+  coap_add_data(resp, 3, (const uint8_t *)"dyn");
+}
+static void h_dyn_del(coap_resource_t *r, coap_session_t *s, const coap_pdu_t *req,
+                      const coap_string_t *q, coap_pdu_t *resp) {
+  (void)req; (void)q;
+  coap_pdu_set_code(resp, COAP_RESPONSE_CODE_DELETED);
+  coap_delete_resource(coap_session_get_context(s), r);
+  n_dyn--;
+}
+static void h_unknown_put(coap_resource_t *r, coap_session_t *s, const coap_pdu_t *req,
+                          const coap_string_t *q, coap_pdu_t *resp) {
+  (void)r; (void)q;
+  W.n_put++;
+  coap_string_t *path = coap_get_uri_path(req);
+  if (!path) {
+    coap_pdu_set_code(resp, COAP_RESPONSE_CODE_INTERNAL_ERROR);
+    return;
+  }
+  /* ownership of path passes to the resource with RELEASE_URI */
+  coap_resource_t *nr = coap_resource_init((coap_str_const_t *)path, COAP_RESOURCE_FLAGS_RELEASE_URI);
+  if (!nr) {
+    coap_delete_string(path);
+    coap_pdu_set_code(resp, COAP_RESPONSE_CODE_INTERNAL_ERROR);
+    return;
+  }
+  coap_register_request_handler(nr, COAP_REQUEST_GET, h_dyn_get);
+  coap_register_request_handler(nr, COAP_REQUEST_DELETE, h_dyn_del);
+  coap_add_resource(coap_session_get_context(s), nr);
+  n_dyn++;
+  coap_pdu_set_code(resp, COAP_RESPONSE_CODE_CREATED);
+}
+
+/* libcoap runs the event loop itself while a client waits for the answer to its first request
+ * (coap_client_delay_first -> coap_io_process_lkd, OSCORE / extended-token probing).  In the
+ * scripted world that loop is this function: deliver what is pending through the _lkd entry
+ * points (the global lock is held), fire timers, otherwise let virtual time pass.  Returns the
+ * virtual milliseconds spent, as the real function returns the real ones. */
+static int route_lkd(size_t i) {
+  if (i >= vn_nout) return 0;
+  size_t len = vn_out[i].len;
+  uint8_t *copy = (uint8_t *)malloc(len ? len : 1);
+  memcpy(copy, vn_out[i].data, len);
+  coap_address_t src, dst;
+  coap_address_copy(&src, &vn_out[i].src);
+  coap_address_copy(&dst, &vn_out[i].dst);
+  int ok = 0;
+  for (int k = 0; k < vn_nnodes; k++) {
+    if (!coap_address_equals(&vn_nodes[k].addr, &dst)) continue;
+    struct epoll_event ev;
+    memset(&ev, 0, sizeof(ev));
+    vn_pending.valid = 1;
+    vn_pending.have_local = 0;
+    coap_address_copy(&vn_pending.src, &src);
+    vn_pending.data = copy;
+    vn_pending.len = len;
+    ev.events = EPOLLIN;
+    ev.data.ptr = vn_nodes[k].kind == 1 ? (void *)&vn_nodes[k].ep->sock : (void *)&vn_nodes[k].sess->sock;
+    vn_out[i].delivered++;
+    coap_io_do_epoll_lkd(vn_nodes[k].ctx, &ev, 1);
+    vn_pending.valid = 0;
+    ok = 1;
+    break;
+  }
+  free(copy);
+  return ok;
+}
+
+int __wrap_coap_io_process_lkd(coap_context_t *ctx, uint32_t timeout_ms) {
+  (void)ctx;
+  if (W.cursor < vn_nout) {
+    route_lkd(W.cursor++);
+    return 0;
+  }
+  unsigned w1 = W.cli ? coap_io_prepare_epoll_lkd(W.cli, vn_now) : 0;
+  unsigned w2 = W.srv ? coap_io_prepare_epoll_lkd(W.srv, vn_now) : 0;
+  if (W.cursor < vn_nout) return 0;
+  unsigned w = w1 && (!w2 || w1 < w2) ? w1 : w2;
+  if (w == 0 || w > timeout_ms) w = timeout_ms ? timeout_ms : 1;
+  vn_advance(w);
+  return (int)w;
 }
 
 static coap_resource_t *mkres(const char *name, coap_method_handler_t get,
@@ -442,6 +554,129 @@ static void sc_resp508(void) {
   pump(120000);
   R("resp=%d code=%d len=%zu nack=%d", W.n_resp, W.last_code, W.last_len, W.n_nack);
   finish_with_canary();
+  world_down();
+}
+
+static void one_request(const char *tag, int type, int code, const char *path) {
+  coap_pdu_t *p = mk_req(W.cs, type, code, path, NULL, NULL);
+  int before = W.n_resp;
+  W.last_code = 0;
+  W.last_len = 0;
+  R("%s_pdu=%d", tag, p != NULL);
+  if (p) R("%s_send=%d", tag, send_tracked(W.cs, p) != COAP_INVALID_MID);
+  pump(120000);
+  R("%s_resp=%d code=%d len=%zu", tag, W.n_resp - before, W.last_code, W.last_len);
+}
+
+static void sc_async(void) {
+  /* separate response through coap_register_async (empty ACK first, CON response later) */
+  prologue(COAP_BLOCK_USE_LIBCOAP | COAP_BLOCK_SINGLE_BODY);
+  coap_resource_t *r = mkres("sep", h_sep, NULL);
+  if (r) coap_add_resource(W.srv, r);
+  one_request("a", COAP_MESSAGE_CON, COAP_REQUEST_CODE_GET, "sep");
+  R("reg=%d", n_async_reg);
+  if (W.n_resp && W.last_code == COAP_RESPONSE_CODE_CONTENT &&
+      (W.last_len != 4 || W.last_hash != fnv((const uint8_t *)"late", 4)))
+    R("bad=wrong-payload");
+  if (W.n_resp > 1) R("bad=response-delivered-%d-times", W.n_resp);
+  finish_with_canary();
+  world_down();
+}
+
+static void sc_unknown(void) {
+  /* resource created by the unknown-resource PUT handler, read, deleted, read again (4.04) */
+  prologue(COAP_BLOCK_USE_LIBCOAP | COAP_BLOCK_SINGLE_BODY);
+  coap_resource_t *u = coap_resource_unknown_init(h_unknown_put);
+  R("unk=%d", u != NULL);
+  if (u) coap_add_resource(W.srv, u);
+  one_request("put", COAP_MESSAGE_CON, COAP_REQUEST_CODE_PUT, "made");
+  one_request("get", COAP_MESSAGE_CON, COAP_REQUEST_CODE_GET, "made");
+  if (W.last_code == COAP_RESPONSE_CODE_CONTENT && W.last_hash != fnv((const uint8_t *)"dyn", 3))
+    R("bad=wrong-payload");
+  one_request("del", COAP_MESSAGE_NON, COAP_REQUEST_CODE_DELETE, "made");
+  one_request("get2", COAP_MESSAGE_CON, COAP_REQUEST_CODE_GET, "made");
+  R("dyn=%d", n_dyn);
+  finish_with_canary();
+  world_down();
+}
+
+static void sc_ping(void) {
+  /* CoAP ping (empty CON -> RST), a NON request answered, a request to a closed port is not
+   * modelled (no ICMP in the scripted network) */
+  prologue(COAP_BLOCK_USE_LIBCOAP | COAP_BLOCK_SINGLE_BODY);
+  coap_mid_t m = coap_session_send_ping(W.cs);
+  R("ping=%d", m != COAP_INVALID_MID);
+  pump(120000);
+  R("nack=%d reason=%d", W.n_nack, W.last_nack);
+  one_request("g", COAP_MESSAGE_NON, COAP_REQUEST_CODE_GET, "r");
+  finish_with_canary();
+  world_down();
+}
+
+static const char osc_cli[] =
+  "master_secret,hex,\"0102030405060708090a0b0c0d0e0f10\"\n"
+  "master_salt,hex,\"9e7ca92223786340\"\n"
+  "sender_id,ascii,\"c\"\n"
+  "recipient_id,ascii,\"s\"\n";
+static const char osc_srv[] =
+  "master_secret,hex,\"0102030405060708090a0b0c0d0e0f10\"\n"
+  "master_salt,hex,\"9e7ca92223786340\"\n"
+  "sender_id,ascii,\"s\"\n"
+  "recipient_id,ascii,\"c\"\n";
+
+static void sc_oscore(void) {
+  /* OSCORE: configuration parsing, security contexts, one protected GET, tear-down.
+   * Armed from the start: the set-up is the larger part of the allocations. */
+  coap_startup();
+  coap_set_log_level(fa_loglevel());
+  vn_prng_seed(11);
+  fa_armed = 1;
+  W.srv = coap_new_context(NULL);
+  W.cli = coap_new_context(NULL);
+  R("ctx=%d%d", W.srv != NULL, W.cli != NULL);
+  int ok = W.srv && W.cli;
+  if (ok) {
+    coap_str_const_t sc = {sizeof(osc_srv) - 1, (const uint8_t *)osc_srv};
+    coap_oscore_conf_t *conf = coap_new_oscore_conf(sc, NULL, NULL, 0);
+    R("sconf=%d", conf != NULL);
+    int r = conf ? coap_context_oscore_server(W.srv, conf) : 0;
+    R("server=%d", r);
+    ok = r;
+  }
+  if (ok) {
+    coap_context_set_block_mode(W.srv, COAP_BLOCK_USE_LIBCOAP | COAP_BLOCK_SINGLE_BODY);
+    coap_context_set_block_mode(W.cli, COAP_BLOCK_USE_LIBCOAP | COAP_BLOCK_SINGLE_BODY);
+    W.ep = vn_new_server_ep(W.srv);
+    W.r_small = mkres("r", h_small, NULL);
+    R("ep=%d res=%d", W.ep != NULL, W.r_small != NULL);
+    if (W.r_small) coap_add_resource(W.srv, W.r_small);
+    coap_register_response_handler(W.cli, on_resp);
+    coap_register_nack_handler(W.cli, on_nack);
+    ok = W.ep && W.r_small;
+  }
+  if (ok) {
+    coap_str_const_t cc = {sizeof(osc_cli) - 1, (const uint8_t *)osc_cli};
+    coap_oscore_conf_t *conf = coap_new_oscore_conf(cc, NULL, NULL, 0);
+    R("cconf=%d", conf != NULL);
+    if (conf) {
+      W.cs = coap_new_client_session_oscore(W.cli, NULL, &W.ep->bind_addr, COAP_PROTO_UDP, conf);
+      if (W.cs) vn_register_client(W.cli, W.cs);
+    }
+    R("cs=%d", W.cs != NULL);
+    ok = W.cs != NULL;
+  }
+  if (ok) {
+    one_request("o", COAP_MESSAGE_CON, COAP_REQUEST_CODE_GET, "r");
+    if (W.last_code == COAP_RESPONSE_CODE_CONTENT &&
+        (W.last_len != 5 || W.last_hash != fnv((const uint8_t *)"hello", 5)))
+      R("bad=wrong-payload");
+    /* what went over the wire must not show the plaintext */
+    for (size_t i = 0; i < vn_nout; i++)
+      for (size_t k = 0; k + 5 <= vn_out[i].len; k++)
+        if (memcmp(vn_out[i].data + k, "hello", 5) == 0) R("bad=plaintext-on-the-wire");
+    /* the canary is a second protected exchange on the same security context */
+    finish_with_canary();
+  }
   world_down();
 }
 
@@ -712,6 +947,8 @@ static const scen_t scens[] = {
   {"get_noblk", sc_get_noblk}, {"notfound", sc_notfound}, {"block2", sc_block2},
   {"block1", sc_block1},     {"observe", sc_observe},   {"uri", sc_uri},
   {"pdu", sc_pdu},           {"teardown_busy", sc_teardown_busy}, {"resp508", sc_resp508},
+  {"async", sc_async},       {"unknown", sc_unknown},   {"ping", sc_ping},
+  {"oscore", sc_oscore},
   {NULL, NULL}};
 
 /* ------------------------------------------------------------------ child / parent */
